@@ -373,6 +373,14 @@ class BoolClient(Client):
         n = self.name_of(test)
         if n is not None and (n in self.tracked or isinstance(test, ast.Name)):
             return [self.put(state, n, True)], [self.put(state, n, False)]
+        # a test this interpreter cannot follow (the result of a call it could not enter, a field of a table record bound to a
+        # local): both branches are explored, but what is concluded from them is no longer exact -- the state says so
+        base = test
+        while isinstance(base, ast.UnaryOp) and isinstance(base.op, ast.Not):
+            base = base.operand
+        if any(isinstance(y, ast.Call) for y in ast.walk(base)) or (
+                isinstance(base, ast.Attribute) and isinstance(base.value, ast.Name) and base.value.id != 'self'):
+            state = self.put(state, '$imprecise', True)
         return [state], [state]
 
     def decide(self, test, state):
@@ -502,6 +510,7 @@ def run(repo, rep):
     if not reads_marker:
         raise AnalysisError('%s: the message control header (first byte of the PDV value) is never read' % proc.loc(loop))
     n_cases = 0
+    imprecise_cases = []
     for cmd_done in (False, True):
         for data_done in (False, True):
             for marker in (0, 1, 2, 3):
@@ -525,6 +534,9 @@ def run(repo, rep):
                         probs.append('no outcome')
                     if not outs and o.exc:
                         probs.append('a PDV with message control header %d raises %s' % (marker, sorted({e_ for _s, e_ in o.exc})))
+                    if outs and any(BoolClient.get(s, '$imprecise') is True for s in outs):
+                        imprecise_cases.append(key)
+                        continue
                     for s in outs:
                         got = BoolClient.get(s, 'self.receiving')
                         if got is U:
@@ -540,6 +552,10 @@ def run(repo, rep):
                             probs.append('data_set_received is %s, expected %s' % (BoolClient.get(s, 'self.data_set_received'), data_after))
                     rep.check(not probs, 'C07.D3', key, proc.loc(loop), 'completion as specified', '; '.join(sorted(set(probs))))
     rep.notes['completion_cases'] = n_cases
+    if imprecise_cases:
+        rep.undecided('C07.D3', '%s: which branch a PDV takes depends on calls / table records the completion analysis cannot follow '
+                      '(%d of %d cases, e.g. %s): completion is not decided for this shape of process()'
+                      % (proc.loc(loop), len(imprecise_cases), n_cases, imprecise_cases[0].rsplit(':', 1)[-1]))
 
     # ---------------------------------------------------------------- D1
     # which reassembly buffer a fragment goes to, per value of the control header: evaluated, not read off the tests
